@@ -158,7 +158,7 @@ func (i *Interpreter) eval(expr ast.Expr, env *environment.Environment, isRepl b
 		propertyName := e.Property.Lexeme
 		value, exists := object[propertyName]
 		if !exists {
-			utils.RuntimeError(token.Token{Line: e.Line}, "Property '"+propertyName+"' does not exist on object '"+e.Object.String()+"'.")
+			utils.RuntimeError(token.Token{Line: e.Line}, "Property '"+propertyName+"' does not exist on the object.")
 			return nil, &ControlFlowSignal{Type: ControlFlowNone, LineNumber: 0}
 		}
 
